@@ -77,24 +77,31 @@ def witnesses_on(mode, M, node, max_steps):
 
 # ------------------------------------------------------------------ one edge
 
-def touched_columns(M, statements):
-    """Spec field names the emitted statements write (None = a whole row / partition)."""
-    cols = set()
+def _parsed(M, statements):
+    out = []
     for text, _ in statements:
         try:
-            script = M.CI.parse(text)
+            out += M.CI.parse(text)["statements"]
         except Exception:            # noqa
-            continue
-        for st in script["statements"]:
-            if st["kind"] == "update":
-                cols |= set(DB_NAMES.get(a["col"], a["col"]) for a in st["assignments"])
-            elif st["kind"] == "insert":
-                cols |= set(DB_NAMES.get(c, c) for c in st["columns"])
-            elif st["kind"] == "delete":
-                if st["targets"]:
-                    cols |= set(DB_NAMES.get(t["col"], t["col"]) for t in st["targets"])
-                else:
-                    cols.add("*")
+            pass
+    return out
+
+
+def _columns_of(st):
+    if st["kind"] == "update":
+        return set(DB_NAMES.get(a["col"], a["col"]) for a in st["assignments"])
+    if st["kind"] == "insert":
+        return set(DB_NAMES.get(c, c) for c in st["columns"])
+    if st["kind"] == "delete":
+        return set(DB_NAMES.get(t["col"], t["col"]) for t in st["targets"]) if st["targets"] else {"*"}
+    return set()
+
+
+def touched_columns(M, statements):
+    """Spec field names the emitted statements write ("*" = a whole row / partition)."""
+    cols = set()
+    for st in _parsed(M, statements):
+        cols |= _columns_of(st)
     return cols
 
 
@@ -110,7 +117,7 @@ def classify(M, mode, op, pre, post, code, out, ok, readback, statements):
     """None when the edge conforms, else (signature, what)."""
     name = op["name"]
     if out.invalid:
-        return "%s:invalid-cql:%s" % (name, _norm_invalid(out.invalid)), "Cassandra refuses the emitted CQL: %s" % out.invalid
+        return "invalid-cql:%s" % _norm_invalid(out.invalid), "Cassandra refuses the emitted CQL: %s" % out.invalid
     if out.raised:
         return "%s:raised:%s" % (name, out.raised.split(":")[0]), "the mapper raised %s" % out.raised
     if out.refused != (not ok):
@@ -129,15 +136,23 @@ def classify(M, mode, op, pre, post, code, out, ok, readback, statements):
         if name == "qsupdate":
             fo = {"s__add": "s", "s__remove": "s", "l__append": "l", "l__prepend": "l", "m__update": "m", "m__remove": "m"}
             kws = [k["kw"] for k in op["sets"] if fo.get(k["kw"], k["kw"]) in fields] or [k["kw"] for k in op["sets"]]
-            empty = [k["kw"] for k in op["sets"] if k["kw"] in kws and not k["none"] and not any(k["x"]) and k["kw"] in ("m__update", "m__remove")]
+            empty = [k["kw"] for k in op["sets"] if k["kw"] in kws and k["kw"] in ("m__update", "m__remove") and not any(k["x"])]
             return "qsupdate:%s%s:row-differs" % ("+".join(sorted(kws)), "(empty)" if empty else ""), what
         if name in ("isave", "batch", "isaveas", "create"):
             touched = touched_columns(M, statements)
+            if name == "batch":
+                # the members of a generated batch write disjoint cells: a column written by two statements means that
+                # a save wrote a column its instance had not modified
+                per = [(_columns_of(st), st["kind"]) for st in _parsed(M, statements)]
+                twice = [c for p, _ in per for c in p if c not in ("*", "k", "ck") and
+                         len(set(k for q, k in per if c in q)) > 1]
+                if twice and all(f in twice for f in fields):
+                    return "save:unmodified-column-written", what
             changed = set(d.split(".")[-1] for d in M.diff_projection(pre["db"], post["db"], "db."))
             if any(f not in changed and (f in touched or "*" in touched) for f in fields):
-                return "%s:unmodified-column-written" % name, what
+                return "save:unmodified-column-written", what
             if any(f in changed and f not in touched and "*" not in touched for f in fields):
-                return "%s:modified-column-not-written" % name, what
+                return "save:modified-column-not-written", what
             return "%s:wrong-value:%s" % (name, "+".join(fields)), what
         return "%s:row-differs:%s" % (name, "+".join(fields)), what
     if readback:
